@@ -9,6 +9,7 @@ Unsupported (harness error, never a verdict).
 """
 import ast, inspect, textwrap, itertools, hashlib
 import z3
+from vf.mstr import MStr, MSplit, MBag
 
 
 def unwrap_fn(fn):
@@ -149,6 +150,8 @@ class Ctx:
         self.unwind_map = {}     # lineno (within the function's own source) -> bound
         self.stats = {"ite": 0, "forks": 0}
         self.encoded = {}        # qualified name -> sha1 of the source text that was interpreted
+        self.raises = []         # (guard, exception type name) of every raise statement reached
+        self.bags = False        # string mode: `[]` and `set()` become guarded containers
 
 
 class Frame:
@@ -251,6 +254,25 @@ class Interp:
         qn = fn.__qualname__.split(".")
         return fdef, Frame(fn.__globals__, qn[-2] if len(qn) > 1 else None)
 
+    def decide(self, c, guard):
+        """with a precondition solver installed (ctx.pre_solver), a symbolic condition that is implied (or refuted) by the
+        precondition and the current path guard is treated as concrete: no fork, no merged dead branch"""
+        s = getattr(self.ctx, "pre_solver", None)
+        if s is None or c is True or c is False:
+            return c
+        from vf import harness
+        s.push()
+        if guard is not True:
+            s.add(to_z3(guard))
+        r1 = harness.check(s, "branch-decision", z3.Not(c))
+        r2 = harness.check(s, "branch-decision", c) if r1 == "sat" else None
+        s.pop()
+        if r1 == "unsat":
+            return True
+        if r2 == "unsat":
+            return False
+        return c
+
     # ---------- statements
     def active(self, fr, guard):
         return b_and(guard, b_not(fr.returned), b_not(fr.brk), b_not(fr.cont))
@@ -315,6 +337,19 @@ class Interp:
         fr.retval = v
         fr.returned = True
 
+    def s_Raise(self, st, fr, guard):
+        name = "Exception"
+        exc = st.exc
+        if isinstance(exc, ast.Call):
+            exc = exc.func
+        if isinstance(exc, ast.Name):
+            name = exc.id
+        elif isinstance(exc, ast.Attribute):
+            name = exc.attr
+        self.ctx.raises.append((guard, name))
+        fr.retval = None
+        fr.returned = True
+
     def s_Break(self, st, fr, guard):
         fr.brk = True
 
@@ -322,7 +357,7 @@ class Interp:
         fr.cont = True
 
     def s_If(self, st, fr, guard):
-        c = as_cond(self.eval(st.test, fr, guard))
+        c = self.decide(as_cond(self.eval(st.test, fr, guard)), guard)
         if c is True:
             self.exec_block(st.body, fr, guard)
         elif c is False:
@@ -391,19 +426,56 @@ class Interp:
             raise Unsupported("merge of distinct arrays")
         if isinstance(a, tuple) and isinstance(b, tuple) and len(a) == len(b):
             return tuple(self.ite(c, x, y) for x, y in zip(a, b))
-        if a is None and b is None:
-            return None
+        if a is None or b is None:
+            return b if a is None else a          # one side raised: its value is irrelevant
+        if isinstance(a, MBag) and isinstance(b, MBag):
+            m = MBag()
+            m.items = [(b_and(c, g), x) for g, x in a.items] + [(b_and(b_not(c), g), x) for g, x in b.items]
+            return m
+        if isinstance(a, MStr) and isinstance(b, MStr) and a.chars is b.chars:
+            return MStr(a.chars, z_ite(c, a.start, b.start), z_ite(c, a.length, b.length))
         self.ctx.stats["ite"] += 1
         return z_ite(c, a, b)
 
     def s_For(self, st, fr, guard):
         it = self.eval(st.iter, fr, guard)
+        if isinstance(it, MSplit):
+            self.for_pieces(st, it, 0, fr, guard)
+            fr.brk = False
+            return
         if isinstance(it, Arr):
             items = [self.arr_get(it, (i,)) for i in range(it.shape[0])]
         else:
             items = list(it)
         self.for_from(st, items, 0, fr, guard)
         fr.brk = False
+
+    def for_pieces(self, st, sp, k, fr, guard):
+        """guarded iteration over the pieces of a symbolic split: piece k exists iff there are at least k separators"""
+        if k >= sp.max_pieces():
+            return
+        exists, view = sp.piece(k)
+        exists = self.decide(as_cond(exists), guard)
+        if exists is False:
+            return
+        if exists is True:
+            exists = z3.BoolVal(True)
+
+        def body(g):
+            self.assign(st.target, view, fr, g)
+            self.exec_block(st.body, fr, g)
+            fr.cont = False
+            pend = b_or(fr.returned, fr.brk)
+            if pend is True:
+                return
+            if pend is not False:
+                self.guarded(b_not(pend), lambda g2: self.for_pieces(st, sp, k + 1, fr, g2), fr, g)
+                return
+            self.for_pieces(st, sp, k + 1, fr, g)
+        if z3.is_true(exists):
+            body(guard)
+        else:
+            self.guarded(exists, body, fr, guard)
 
     def for_from(self, st, items, k, fr, guard):
         while k < len(items):
@@ -425,7 +497,7 @@ class Interp:
 
     def while_from(self, st, k, fr, guard):
         while True:
-            c = as_cond(self.eval(st.test, fr, guard))
+            c = self.decide(as_cond(self.eval(st.test, fr, guard)), guard)
             if c is False:
                 return
             if k >= self.ctx.unwind_map.get(st.lineno, self.ctx.unwind):
@@ -622,7 +694,12 @@ class Interp:
         return tuple(self.eval(x, fr, guard) for x in e.elts)
 
     def e_List(self, e, fr, guard):
+        if self.ctx.bags and not e.elts:
+            return MBag()
         return [self.eval(x, fr, guard) for x in e.elts]
+
+    def e_JoinedStr(self, e, fr, guard):
+        return "<formatted text>"
 
     def e_Attribute(self, e, fr, guard):
         base = self.eval(e.value, fr, guard)
@@ -642,6 +719,20 @@ class Interp:
         idx = self.eval_index(e.slice, fr, guard)
         if isinstance(base, Arr):
             return self.arr_get(base, idx, guard)
+        if isinstance(base, MStr):
+            if len(idx) == 1 and isinstance(idx[0], slice) and idx[0].step is None:
+                return base.slice(idx[0].start, idx[0].stop)
+            if len(idx) == 1 and not isinstance(idx[0], slice):
+                i = idx[0] if is_sym(idx[0]) else z3.IntVal(int(idx[0]))
+                ok = z3.And(i >= -base.length, i < base.length)
+                self.ctx.obligations.append((guard, ok, "string index in range (IndexError otherwise)"))
+                j = z3.If(i < 0, i + base.length, i)
+                return MStr(base.chars, base.start + j, 1)
+            raise Unsupported("string indexing with a stepped slice")
+        if isinstance(base, MSplit):
+            if len(idx) == 1 and idx[0] == -1:
+                return base.last()
+            raise Unsupported("split(...)[i] other than [-1]")
         if isinstance(base, (list, tuple)):
             i = idx[0]
             if is_sym(i):
@@ -726,6 +817,13 @@ class Interp:
     def cmp(self, op, a, b):
         if isinstance(a, Arr) or isinstance(b, Arr):
             return self.arr_map(lambda x, y: self.cmp(op, x, y), a, b)
+        if isinstance(a, MStr) or isinstance(b, MStr):
+            if isinstance(b, MStr):
+                a, b = b, a
+            if isinstance(b, str) and isinstance(op, (ast.Eq, ast.NotEq)):
+                r = a.eq_const(b)
+                return r if isinstance(op, ast.Eq) else z3.Not(r)
+            raise Unsupported("string comparison other than ==/!= with a constant")
         if isinstance(op, (ast.In, ast.NotIn)):
             if isinstance(b, MSet):
                 r = b.contains(a)
@@ -751,7 +849,7 @@ class Interp:
         raise Unsupported("cmp")
 
     def e_IfExp(self, e, fr, guard):
-        c = as_cond(self.eval(e.test, fr, guard))
+        c = self.decide(as_cond(self.eval(e.test, fr, guard)), guard)
         if c is True:
             return self.eval(e.body, fr, guard)
         if c is False:
@@ -767,8 +865,12 @@ class Interp:
     def call(self, f, args, kwargs, guard):
         if isinstance(f, tuple) and f and f[0] == "arrmethod":
             return self.models["arr." + f[2]](self, f[1], *args, **kwargs)
-        if isinstance(getattr(f, "__self__", None), MSet):
-            return f(*args, guard=guard)
+        if isinstance(getattr(f, "__self__", None), (MSet, MStr, MSplit, MBag)):
+            return f(*args, guard=guard, **kwargs)
+        if self.ctx.bags and f is set and not args:
+            return MBag()
+        if f is print:
+            return None
         key = f
         try:
             if key in self.models:
